@@ -84,7 +84,7 @@ def run(ctx):
         "sampler with return_logprobs=True; ln_prior of library row i is -3 - i/8 (injective), stub likelihoods known per row. "
         "Non-trivial = at least one sample accepted and one rejected",
         assumptions=["as C02", "column identity is decided on exact float values"],
-        trusted_extra=["Coq-Interval through Base/RealEnc.v (acceptance decisions)"],
+        trusted_extra=["Coq-Interval through Base/RealEnc.v (acceptance decisions)", "translator tools/py2v_reject.py (the four rejection sites; fail-closed)"],
     )
 
 
